@@ -41,6 +41,9 @@ def configs(tier):
                 for qf in ((0, 1, 2) if (fac == 'kkt_chol' and p) else (1,)):
                     out.append({'part': 'kkt', 'factory': fac, 'dims': d, 'mnl': mnl, 'n': n, 'p': p, 'H': withH, 'twice': False, 'qfam': qf})
         out.append({'part': 'kkt', 'factory': fac, 'dims': kd[1][0], 'mnl': 0, 'n': 2, 'p': 1, 'H': True, 'twice': True})
+    from vp.checks import c10_cpl
+    for c in c10_cpl.configs(tier):
+        if c['kclass'] == 'k1': out.append(dict(c, part='cpl_restore', factory='cpl-restore'))
     return out
 
 # ------------------------------------------------------------------------------------------ helpers (both worlds)
@@ -347,6 +350,13 @@ def _world():
     return _WORLD
 
 def job(cfg):
+    if cfg.get('part') == 'cpl_restore':
+        # the scaling cpl hands to the KKT solver when it retries after restoring its saved state (harness of vp/checks/c10_cpl.py)
+        from vp.checks import c10_cpl
+        r = c10_cpl.job(dict(cfg, _timeout_ms=min(int(cfg.get('_timeout_ms', 20000)), 20000)))
+        return {'paths': r['paths'], 'obl': r['obl'], 'solver_s': r['solver_s'], 'sat': [s_ for s_ in r['sat'] if s_.get('prop') == 'C07'],
+                'unknown': [u for u in r['unknown'] if u.startswith('retry: sca')], 'errors': r['errors'], 'reach': 1 if r['reach'] else 0,
+                'sample': (r['samples'][0] if r['samples'] else None)}
     import z3
     from vp.pysym import sym, prove, alg
     Wd = _world()
@@ -425,7 +435,11 @@ def replay_on_build(path):
     return None, 'not reproduced (precond_ok=%s)' % d.get('precond_ok')
 
 def replay_main(path):
-    rep, why = replay_on_build(path)
+    if json.load(open(path)).get('cfg', {}).get('part') == 'cpl_restore':
+        from vp.checks import c10_cpl
+        rep, why = c10_cpl.replay_on_build(path)
+    else:
+        rep, why = replay_on_build(path)
     if rep: print('REPRODUCED on the real build: %s' % rep); return 1
     print(why); return 0
 
@@ -454,13 +468,18 @@ def main(tier):
             if key in seen: seen[key] += 1; continue
             seen[key] = 1
             rp = common.write_replay('C07', json.dumps(cfg, sort_keys=True) + s['label'], {'property': 'C07', 'cfg': cfg, 'label': s['label'], 'model': s['model']})
-            rep, why = replay_on_build(rp)
+            if cfg.get('part') == 'cpl_restore':
+                from vp.checks import c10_cpl
+                rep, why = c10_cpl.replay_on_build(rp)
+            else:
+                rep, why = replay_on_build(rp)
             if rep is None: herr.append('%s: counterexample for "%s" %s (%s)' % (json.dumps(cfg), s['label'], why, rp))
             elif key in known: known_hits.append((key, known[key]['what']))
             else: violations.append((key, rp, '%s: %s -> %s' % (json.dumps(cfg), s['label'], rep)))
     ev.cov.update({'states': max(1, paths), 'transitions': max(1, ev.obl['total']), 'traces_validated_against_impl': 0, 'configurations': len(cfgs),
-                   'functions_encoded': ['misc.compute_scaling', 'misc.update_scaling', 'misc.kkt_ldl', 'misc.kkt_ldl2', 'misc.scale/pack/unpack/sgemv (Python fallbacks)'],
-                   'source_hash': loader.src_hash(['misc']),
+                   'functions_encoded': ['misc.compute_scaling', 'misc.update_scaling', 'misc.kkt_ldl', 'misc.kkt_ldl2', 'misc.kkt_chol', 'misc.scale/pack/unpack/sgemv (Python fallbacks)',
+                                         'cvxprog.cpl (restore of the saved scaling W0 and retry of the factorisation after an ArithmeticError)'],
+                   'source_hash': loader.src_hash(['misc', 'cvxprog']),
                    'bounds': "cone structures with l <= 2, up to two q blocks of dimension 2, 's' blocks of order 1, mnl <= 1, n <= 2 (3 thorough), p <= 1; all data symbolic reals"})
     ev.assumptions += ['lapack.sytrf/sytrs (potrf/potrs) are contract stubs: the solve returns any X with sym(K) X = rhs for the K assembled by the code; kkt_chol, kkt_chol2, kkt_qr are not covered',
                        "exact real arithmetic - 'to working accuracy' and drift bounds are not decided", 'the scaling operator used in the oracle is the independent definition of vp/oracles/cone.py']
